@@ -1,6 +1,7 @@
 //! mc_core: exhaustive bounded exploration engines that drive the real erg crates in-process.
 mod shard;
 mod lexenum;
+mod runfile;
 mod compile_batch;
 mod parseenum;
 mod sexp;
@@ -19,6 +20,7 @@ fn main() {
     let rest = &args[2..];
     match args[1].as_str() {
         "lex-enum" => lexenum::main(rest),
+        "run-file" => runfile::main(rest),
         "compile-batch" => compile_batch::main(rest),
         "parse-enum" => parseenum::main(rest),
         "prec" => prec::main(rest),
